@@ -1,7 +1,7 @@
 ---- MODULE ThreadPool ----
 (* threadpool.c at pthread-call granularity: NC clients (caller + result handler each) sharing one pool. *)
 EXTENDS Integers, Sequences, FiniteSets, TLC
-CONSTANTS MaxThreads, NC, Jobs, Ordered, MaxSpurious
+CONSTANTS MaxThreads, NC, Jobs, Ordered, MaxSpurious, Mixed
 Workers == 1..MaxThreads
 Callers == (MaxThreads + 1)..(MaxThreads + NC)
 Handlers == (MaxThreads + NC + 1)..(MaxThreads + 2 * NC)
@@ -11,6 +11,9 @@ Clients == 1..NC
 None == 0
 Objs == {<<"pool", 0>>} \cup {<<"rq", c>> : c \in Clients} \cup {<<"thr", w>> : w \in Workers}
 JobId(c, j) == c * 100 + j
+\* which clients dispatch ordered jobs (a writer) and which unordered ones (a sorter): all alike, or client 1 ordered and
+\* the others unordered when Mixed (a writer and sorters sharing one pool: workers move between the two kinds of job)
+OrdOf(c) == IF Mixed THEN c = 1 ELSE Ordered
 (* --algorithm tp2 {
 variables
   owner = [o \in Objs |-> 0];
@@ -43,11 +46,11 @@ variables j = 1; thr = None; isnew = FALSE;
   n4: unlock(<<"pool",0>>);
   n5: if (isnew) { created := created \cup {thr}; };
   d1: lock(<<"thr",thr>>);
-  d2: trq[thr] := IF Ordered THEN None ELSE Cl(self); cb[thr] := JobId(Cl(self), j); running[thr] := TRUE; signal(<<"thr",thr>>);
+  d2: trq[thr] := IF OrdOf(Cl(self)) THEN None ELSE Cl(self); cb[thr] := JobId(Cl(self), j); running[thr] := TRUE; signal(<<"thr",thr>>);
   d3: unlock(<<"thr",thr>>);
   d4: lock(<<"rq",Cl(self)>>);
   d5: nthreads[Cl(self)] := nthreads[Cl(self)] + 1;
-      if (Ordered) { rqueue[Cl(self)] := Append(rqueue[Cl(self)], thr); signal(<<"rq",Cl(self)>>); };
+      if (OrdOf(Cl(self))) { rqueue[Cl(self)] := Append(rqueue[Cl(self)], thr); signal(<<"rq",Cl(self)>>); };
   d6: unlock(<<"rq",Cl(self)>>); j := j + 1;
  };
  f1: lock(<<"rq",Cl(self)>>);
@@ -270,7 +273,7 @@ d1(self) == /\ pc[self] = "d1"
                             j, thr, isnew, myrq, t, r >>
 
 d2(self) == /\ pc[self] = "d2"
-            /\ trq' = [trq EXCEPT ![thr[self]] = IF Ordered THEN None ELSE Cl(self)]
+            /\ trq' = [trq EXCEPT ![thr[self]] = IF OrdOf(Cl(self)) THEN None ELSE Cl(self)]
             /\ cb' = [cb EXCEPT ![thr[self]] = JobId(Cl(self), j[self])]
             /\ running' = [running EXCEPT ![thr[self]] = TRUE]
             /\ IF waiters[(<<"thr",thr[self]>>)] # {}
@@ -303,7 +306,7 @@ d4(self) == /\ pc[self] = "d4"
 
 d5(self) == /\ pc[self] = "d5"
             /\ nthreads' = [nthreads EXCEPT ![Cl(self)] = nthreads[Cl(self)] + 1]
-            /\ IF Ordered
+            /\ IF OrdOf(Cl(self))
                   THEN /\ rqueue' = [rqueue EXCEPT ![Cl(self)] = Append(rqueue[Cl(self)], thr[self])]
                        /\ IF waiters[(<<"rq",Cl(self)>>)] # {}
                              THEN /\ \E wk \in waiters[(<<"rq",Cl(self)>>)]:
@@ -822,7 +825,7 @@ Range(f) == {f[i] : i \in DOMAIN f}
 AllDone == \A p \in Callers \cup Handlers \cup Workers : pc[p] = "Done"
 ExactlyOnce == \A c \in Clients : closed[c] => (Len(delivered[c]) = Jobs /\ Range(delivered[c]) = {JobId(c, jj) : jj \in 1..Jobs})
 NoDup == \A c \in Clients : Cardinality(Range(delivered[c])) = Len(delivered[c]) /\ Range(delivered[c]) \subseteq {JobId(c, jj) : jj \in 1..Jobs}
-InOrder == Ordered => \A c \in Clients : \A i \in 1..Len(delivered[c]) : delivered[c][i] = JobId(c, i)
+InOrder == \A c \in Clients : OrdOf(c) => \A i \in 1..Len(delivered[c]) : delivered[c][i] = JobId(c, i)
 Bounded == pcount <= MaxThreads /\ Cardinality(created) <= MaxThreads
 NoDeadlock == AllDone \/ ENABLED (\E p \in Callers \cup Handlers \cup Workers : caller(p) \/ worker(p) \/ rh(p) \/ wait(p))
 Live == <>AllDone
